@@ -14,7 +14,7 @@ LEVEL_NOTE = [
     "Lean 4.33 kernel; axioms ⊆ {propext, Classical.choice, Quot.sound} (audited each run)",
     "Model/Transformer.lean hand model of transformer.py (correspondence on real Lark trees each run)",
     "that Lark builds the tree the grammar describes for a rendering is the parser gap: exercised by the oracle (real loads vs the promised dictionary), not proved",
-    "`conservation` (nothing dropped / invented / re-attached, for whole documents) is established per call-back (C02_repeated_in_order, C02_plural_in_order, C02_singleton_nested, C08_last_occurrence) and by the oracle on whole documents, not as one composed theorem",
+    "`conservation` (nothing dropped / invented / re-attached) is established per call-back (C02_repeated_in_order, C02_plural_in_order, C02_singleton_nested, C08_last_occurrence), composed for one level and for whole trees by C01_level_roundtrip / C01_document_roundtrip (Props/C01Attr.lean: a block whose items are keyword lines with distinct plain keywords, singleton blocks and consecutive runs of repeatable blocks becomes `__type__` + exactly those entries in order, at every depth), and checked by the oracle on whole documents of every layout (interleaved repeatable blocks, repeated keywords, CONFIG, POINTS are covered by the per-call-back theorems only)",
     "float values are carried as Python's repr (supplied per case)",
 ]
 RULE = ("schema-generated documents: every object type as root, keywords drawn from the schema with every admissible value shape, nesting ≤ 5 (thorough) / 3 (quick), "
@@ -179,6 +179,6 @@ def kindof(path):
 def main(ctx):
     if ctx.replay:
         print(open(ctx.replay).read()[:4000]); return
-    core.proof_leg(ctx, ["Mappy.Props.C02"])
+    core.proof_leg(ctx, ["Mappy.Props.C02", "Mappy.Props.C01Attr"])
     explore(ctx)
     core.finish(ctx, LEVEL_NOTE, RULE, search=lambda c: explore(c, scale=2.0))
